@@ -83,8 +83,8 @@ func main() {
 		"PhysMemMapper (all six entry points, range lists), UEFI.PhysAddrToOffset/OffsetToPhysAddr, consts.Calculate*, both isPhysAddr copies; " +
 		"B: CalcImageOffset on full-flash (descriptor + BIOS region, BIOS last / not last), coreboot (FMAP), bare BIOS region and unparseable images x address classes; " +
 		"C: NodeVisitor (fallback on/off, AddOffset, random stop answers), GetByGUID/Range/RegionType, UEFIGUIDFirst, UEFIFilesByType/ByName, VolumeOf, MemRanges, FITFirst/FITAll, ACMDate, IBB, PCR0_DATA on " +
-		"GALAGOPRO3, the synthetic Intel image, both behind a flash descriptor, tail truncations and parse-preserving byte mutations; "+
-		"synthetic BIOS regions built from the PI layouts (few GUIDs used many times as file and volume names: inside zlib/LZMA-compressed sections, nested compressed sections, after them, in sibling and nested volumes; named/unnamed volumes, pad and raw files, non-processed sections); "+
+		"GALAGOPRO3, the synthetic Intel image, both behind a flash descriptor, tail truncations and parse-preserving byte mutations; " +
+		"synthetic BIOS regions built from the PI layouts (few GUIDs used many times as file and volume names: inside zlib/LZMA-compressed sections, nested compressed sections, after them, in sibling and nested volumes; named/unnamed volumes, pad and raw files, non-processed sections); " +
 		"the synthetic Intel image with re-shaped Boot Policy / Key Manifests (IBB digest list in every order and composition: SHA1 first/last/absent/twice, other algorithms and odd buffer lengths in between; PostIBB/OBB hashes, extra segments, TXT/PM elements present or not, more KM hashes, manifests moved) for PCR0_DATA, incl. the digest-reference search as correspondence cases")
 }
 
@@ -496,8 +496,8 @@ func imagesPart(ctx *gal.Ctx, fake, galago []byte) {
 	// synthetic BIOS regions: few names, many occurrences, compressed and nested areas
 	nSynth := ctx.Scale(45, 400)
 	for i := 0; i < nSynth; i++ {
-		b, descr := synthImage(rng, i)
-		im := image{name: fmt.Sprintf("synthetic #%d (%s, %#x bytes)", i, descr, len(b)), data: b, synth: true}
+		b, descr, outline := synthImage(rng, i)
+		im := image{name: fmt.Sprintf("synthetic #%d (%s, %#x bytes)", i, descr, len(b)), data: b, synth: true, outline: outline}
 		if i%7 == 3 {
 			im.data, _ = withIFD(b, i%3, 0)
 			im.name += " behind a flash descriptor"
